@@ -87,38 +87,97 @@ Qed.
 
 (* ------------------------------------------------------------ errors.As *)
 
+(* induction over cause trees *)
+Section goerr_ind2.
+  Variable P : goerr -> Prop.
+  Hypothesis HPl : forall m, P (EPlain m).
+  Hypothesis HSe : forall c, P (EService c).
+  Hypothesis HCu : forall ty fs, P (ECustom ty fs).
+  Hypothesis HWr : forall w e, P e -> P (EWrap w e).
+  Hypothesis HJo : forall sep es, Forall P es -> P (EJoin sep es).
+  Fixpoint goerr_ind2 (e : goerr) : P e :=
+    match e with
+    | EPlain m => HPl m
+    | EService c => HSe c
+    | ECustom ty fs => HCu ty fs
+    | EWrap w e' => HWr w e' (goerr_ind2 e')
+    | EJoin sep es =>
+      HJo sep es ((fix go (l : list goerr) : Forall P l :=
+                     match l with
+                     | [] => Forall_nil P
+                     | x :: r => Forall_cons x (goerr_ind2 x) (go r)
+                     end) es)
+    end.
+End goerr_ind2.
+
+Lemma first_some_none {A B} (f : A -> option B) l :
+  first_some f l = None <-> forall x, In x l -> f x = None.
+Proof.
+  induction l as [|a l IH]; simpl.
+  - split; [intros _ x []|reflexivity].
+  - destruct (f a) eqn:E.
+    + split; [discriminate|]. intro H. rewrite (H a (or_introl eq_refl)) in E. discriminate.
+    + rewrite IH. split.
+      * intros H x [<-|Hx]; [exact E|apply H, Hx].
+      * intros H x Hx. apply H. right. exact Hx.
+Qed.
+
+Lemma first_some_app {A B} (f : A -> option B) l1 l2 :
+  first_some f (l1 ++ l2)%list = match first_some f l1 with Some y => Some y | None => first_some f l2 end.
+Proof.
+  induction l1 as [|a l1 IH]; simpl; [reflexivity|].
+  destruct (f a); [reflexivity|exact IH].
+Qed.
+
 Lemma as_namer_none_no_service te e : as_namer te e = None -> as_service e = None.
-Proof. induction e; simpl; intro H; try reflexivity; try discriminate. apply IHe, H. Qed.
-
-Lemma as_service_namer te e c : as_service e = Some c -> as_namer te e = Some (cname c).
 Proof.
-  induction e; simpl; intro H; try discriminate.
-  - injection H as ->. reflexivity.
-  - apply IHe, H.
+  induction e using goerr_ind2; simpl; intro H0; try reflexivity; try discriminate.
+  - apply IHe, H0.
+  - apply first_some_none. intros x Hx. rewrite Forall_forall in H.
+    apply (H x Hx). exact (proj1 (first_some_none _ _) H0 x Hx).
 Qed.
 
-Lemma as_custom_namer te ty e fs : as_custom ty e = Some fs -> as_namer te e = Some (custom_name te ty fs).
+(* an inert tree holds nothing errors.As could find *)
+Lemma inert_nothing te e :
+  inert e = true -> as_namer te e = None /\ as_service e = None /\ forall ty, as_custom ty e = None.
 Proof.
-  induction e; simpl; intro H; try discriminate.
-  - destruct (String.eqb ty ty0) eqn:E; [|discriminate].
-    injection H as ->. apply String.eqb_eq in E. subst. reflexivity.
-  - apply IHe, H.
+  induction e using goerr_ind2; simpl; intro Hi; try discriminate.
+  - repeat split.
+  - exact (IHe Hi).
+  - rewrite Forall_forall in H. rewrite forallb_forall in Hi.
+    repeat split; [| |intro ty]; apply first_some_none; intros x Hx;
+      destruct (H x Hx (Hi x Hx)) as [H1 [H2 H3]]; [exact H1|exact H2|exact (H3 ty)].
 Qed.
 
-Lemma typed_value_name te d e vf nm :
-  typed_value te d e = Some (vf, nm) -> as_namer te e = Some nm.
-Proof.
-  unfold typed_value. destruct (ekind_of d) as [|ty].
-  - destruct (as_service e) as [c|] eqn:E; [|discriminate].
-    intro H. injection H as <- <-. apply as_service_namer, E.
-  - destruct (as_custom ty e) as [fs|] eqn:E; [|discriminate].
-    intro H. injection H as <- <-. apply as_custom_namer, E.
-Qed.
+Lemma first_some_inert {B} (f : goerr -> option B) l :
+  (forall x, In x l -> f x = None) -> first_some f l = None.
+Proof. intro H. apply first_some_none. exact H. Qed.
 
-Lemma as_wrap_same te w e :
-  as_namer te (EWrap w e) = as_namer te e /\ as_service (EWrap w e) = as_service e /\
-  forall ty, as_custom ty (EWrap w e) = as_custom ty e.
-Proof. repeat split. Qed.
+(* errors.As sees through every wrapper tree *)
+Lemma wraps_as te g t :
+  wraps g t ->
+  as_namer te t = as_namer te g /\ as_service t = as_service g /\ forall ty, as_custom ty t = as_custom ty g.
+Proof.
+  induction 1 as [|w t Hw IH|sep pre t post Hpre Hpost Hw IH].
+  - repeat split.
+  - simpl. exact IH.
+  - destruct IH as [H1 [H2 H3]].
+    rewrite forallb_forall in Hpre, Hpost.
+    assert (Np : forall x, In x pre -> as_namer te x = None /\ as_service x = None /\ forall ty, as_custom ty x = None)
+      by (intros x Hx; apply inert_nothing, Hpre, Hx).
+    assert (Nq : forall x, In x post -> as_namer te x = None /\ as_service x = None /\ forall ty, as_custom ty x = None)
+      by (intros x Hx; apply inert_nothing, Hpost, Hx).
+    simpl. repeat split; [| |intro ty]; rewrite first_some_app; simpl.
+    + rewrite (first_some_inert (as_namer te) pre) by (intros x Hx; apply (Np x Hx)).
+      rewrite H1. destruct (as_namer te g); [reflexivity|].
+      apply first_some_inert. intros x Hx. apply (Nq x Hx).
+    + rewrite (first_some_inert as_service pre) by (intros x Hx; apply (Np x Hx)).
+      rewrite H2. destruct (as_service g); [reflexivity|].
+      apply first_some_inert. intros x Hx. apply (Nq x Hx).
+    + rewrite (first_some_inert (as_custom ty) pre) by (intros x Hx; apply (Np x Hx)).
+      rewrite H3. destruct (as_custom ty g); [reflexivity|].
+      apply first_some_inert. intros x Hx. apply (Nq x Hx).
+Qed.
 
 (* ------------------------------------------------------------ the table *)
 
@@ -461,7 +520,8 @@ Definition well_mapped (d : edecl) (vf : fields) : Prop :=
   (forall h, In h (ehdrs d) -> hreq h = true -> lookup (hattr h) vf <> None) /\
   maps_all d vf.
 
-Lemma roundtrip hw te tbl d e vf nm :
+Lemma roundtrip_nm hw te tbl d e vf nm :
+  nm = ename d ->
   NoDup (map ename tbl) -> In d tbl ->
   as_namer te e = Some (ename d) ->
   typed_value te d e = Some (vf, nm) ->
@@ -476,9 +536,7 @@ Lemma roundtrip hw te tbl d e vf nm :
                                forall k, lookup k fs = lookup k vf
     end.
 Proof.
-  intros Hnd Hin Hn Ht [Hhn [Hgoa [Hreq Hm]]] [Hsafe Hwn].
-  assert (Hnm : nm = ename d).
-  { pose proof (typed_value_name _ _ _ _ _ Ht) as H. rewrite Hn in H. injection H as <-. reflexivity. }
+  intros Hnm Hnd Hin Hn Ht [Hhn [Hgoa [Hreq Hm]]] [Hsafe Hwn].
   exists (declared_events d vf nm). split.
   { unfold encode_error. rewrite Hn, (find_decl_found tbl d Hnd Hin), Ht. reflexivity. }
   cbv zeta.
@@ -497,6 +555,22 @@ Proof.
     exists fs. split; [|exact Hl]. f_equal.
     rewrite (custom_name_ext te ty _ _ Hl). rewrite Hc. exact Hnm.
 Qed.
+
+Lemma roundtrip hw te tbl d e vf :
+  NoDup (map ename tbl) -> In d tbl ->
+  as_namer te e = Some (ename d) ->
+  typed_value te d e = Some (vf, ename d) ->
+  well_mapped d vf -> wire_safe_err hw d vf ->
+  exists evs, encode_error te tbl e = Some evs /\
+    let w := run_writer hw evs in
+    ws_status w = estatus d /\ ws_count w = 1 /\
+    lookup goa_error_header (ws_sent w) = Some (ename d) /\
+    match ekind_of d with
+    | KDefault => exists c, as_service e = Some c /\ decode_error te tbl w = CService c
+    | KCustom ty => exists fs, decode_error te tbl w = CCustom (ename d) fs /\
+                               forall k, lookup k fs = lookup k vf
+    end.
+Proof. exact (roundtrip_nm hw te tbl d e vf (ename d) eq_refl). Qed.
 
 Lemma plain_fault hw te tbl e :
   as_namer te e = None ->
@@ -530,21 +604,37 @@ Proof.
   - rewrite run_default. rewrite Hs. reflexivity.
 Qed.
 
-Lemma wrapped_same te tbl w e :
-  (as_service e <> None \/ exists n d, as_namer te e = Some n /\ find_decl n tbl = Some d) ->
-  encode_error te tbl (EWrap w e) = encode_error te tbl e.
+Lemma wrapped_same te tbl g t :
+  wraps g t ->
+  (as_service g <> None \/ exists n d, as_namer te g = Some n /\ find_decl n tbl = Some d) ->
+  encode_error te tbl t = encode_error te tbl g.
 Proof.
-  intro H. unfold encode_error. change (as_namer te (EWrap w e)) with (as_namer te e).
-  destruct (as_namer te e) as [n|] eqn:En.
+  intros Hw H. destruct (wraps_as te g t Hw) as [H1 [H2 H3]].
+  unfold encode_error. rewrite H1.
+  assert (Ht : forall d, typed_value te d t = typed_value te d g).
+  { intro d. unfold typed_value. rewrite H2. destruct (ekind_of d); [reflexivity|]. rewrite H3. reflexivity. }
+  destruct (as_namer te g) as [n|] eqn:En.
   - destruct (find_decl n tbl) as [d|] eqn:Ef.
-    + reflexivity.
-    + assert (Hs : as_service e <> None).
+    + rewrite Ht. reflexivity.
+    + assert (Hs : as_service g <> None).
       { destruct H as [H|[n' [d' [Hn' Hf']]]]; [exact H|].
         injection Hn' as <-. rewrite Ef in Hf'. discriminate. }
-      unfold default_events. change (as_service (EWrap w e)) with (as_service e).
-      destruct (as_service e); [reflexivity|]. exfalso. apply Hs. reflexivity.
+      unfold default_events. rewrite H2.
+      destruct (as_service g); [reflexivity|]. exfalso. apply Hs. reflexivity.
   - exfalso. destruct H as [H|[n' [d' [Hn' _]]]]; [|discriminate].
-    apply H. exact (as_namer_none_no_service te e En).
+    apply H. exact (as_namer_none_no_service te g En).
+Qed.
+
+(* an undeclared service error below any wrapper tree keeps its own status and fields *)
+Lemma wrapped_undeclared_service hw te tbl c t :
+  wraps (EService c) t -> find_decl (cname c) tbl = None ->
+  encode_error te tbl t = Some (default_events t) /\
+  run_writer hw (default_events t) = mkws true (http_status c) [] [] (WObj (core_fields c)) 1.
+Proof.
+  intros Hw Hf. destruct (wraps_as te _ _ Hw) as [H1 [H2 _]]. simpl in H1, H2.
+  split.
+  - unfold encode_error. rewrite H1, Hf. reflexivity.
+  - rewrite run_default. rewrite H2. reflexivity.
 Qed.
 
 Definition dfail_status (f : dfail) : nat := match f with DUnsupportedMedia => 415 | _ => 400 end.
@@ -640,4 +730,57 @@ Proof.
   - apply IH; assumption.
   - destruct err; apply run_steps_keeps; exact Hl.
   - apply IH; assumption.
+Qed.
+
+(* ------------------------------------------------------------ the effective table *)
+
+Lemma eff_names_returnable lv n :
+  In n (eff_names lv) <-> (In n (map fst (m_decl lv)) \/ In n (map fst (s_decl lv))).
+Proof.
+  unfold eff_names. rewrite in_app_iff, filter_In. split.
+  - intros [H|[H _]]; [left|right]; exact H.
+  - intros [H|H]; [left; exact H|].
+    destruct (mem n (map fst (m_decl lv))) eqn:E.
+    + left. unfold mem in E. apply existsb_exists in E. destruct E as [x [Hx Ex]].
+      apply String.eqb_eq in Ex. subst. exact Hx.
+    + right. split; [exact H|reflexivity].
+Qed.
+
+Lemma effective_table_spec lv n st k :
+  In (n, st, k) (effective_error_table lv) <->
+  (In n (map fst (m_decl lv)) \/ In n (map fst (s_decl lv))) /\ pick lv n = Some (st, Some k).
+Proof.
+  unfold effective_error_table. rewrite in_flat_map. split.
+  - intros [n' [Hn' Hin]]. destruct (pick lv n') as [[st' [k'|]]|] eqn:E; simpl in Hin; try tauto.
+    destruct Hin as [Heq|[]]. injection Heq as -> -> ->.
+    split; [apply eff_names_returnable, Hn'|exact E].
+  - intros [Hr Hp]. exists n. split; [apply eff_names_returnable, Hr|]. rewrite Hp. left. reflexivity.
+Qed.
+
+(* every declaring level agrees on the type of the error *)
+Definition levels_type_consistent (lv : levels) (n : string) : Prop :=
+  forall k1 k2, In (Some k1) [alookup n (m_decl lv); alookup n (s_decl lv); alookup n (a_decl lv)] ->
+                In (Some k2) [alookup n (m_decl lv); alookup n (s_decl lv); alookup n (a_decl lv)] -> k1 = k2.
+
+Lemma row_kind_is_method_kind lv n st k :
+  levels_type_consistent lv n -> In (n, st, k) (effective_error_table lv) -> method_kind lv n = Some k.
+Proof.
+  intros Hc Hin. apply effective_table_spec in Hin. destruct Hin as [Hr Hp].
+  assert (Hm : exists km, method_kind lv n = Some km).
+  { unfold method_kind. destruct (alookup n (m_decl lv)) as [x|] eqn:E; [eexists; reflexivity|].
+    destruct (alookup n (s_decl lv)) as [y|] eqn:E2; [eexists; reflexivity|]. exfalso.
+    assert (Hno : forall (l : list (string * ekind)), alookup n l = None -> ~ In n (map fst l)).
+    { induction l as [|[k' v] l IH]; simpl; [tauto|]. destruct (String.eqb n k') eqn:Ek; [discriminate|].
+      intros H [He|Hi]; [subst; rewrite String.eqb_refl in Ek; discriminate|exact (IH H Hi)]. }
+    destruct Hr as [Hr|Hr]; [exact (Hno _ E Hr)|exact (Hno _ E2 Hr)]. }
+  destruct Hm as [km Hkm]. rewrite Hkm. f_equal.
+  assert (Hkm_in : In (Some km) [alookup n (m_decl lv); alookup n (s_decl lv); alookup n (a_decl lv)]).
+  { unfold method_kind in Hkm. destruct (alookup n (m_decl lv)); [left; exact Hkm|right; left; exact Hkm]. }
+  unfold pick in Hp.
+  destruct (alookup n (m_map lv)).
+  { injection Hp as _ Hk. rewrite Hkm in Hk. injection Hk as ->. reflexivity. }
+  destruct (alookup n (s_map lv)).
+  { injection Hp as _ Hk. apply Hc; [exact Hkm_in|right; left; exact Hk]. }
+  destruct (alookup n (a_map lv)); [|discriminate].
+  injection Hp as _ Hk. apply Hc; [exact Hkm_in|right; right; left; exact Hk].
 Qed.
